@@ -20,6 +20,7 @@ MEMBERS = [
     {"k": "cpp_member", "doc": 0, "types": ["args"], "params": [], "impl": "macro"},
     {"k": "cpp_member", "doc": 1, "types": ["int", "desc", "str"], "params": ["row", "col", "value"],
      "doctext": ["Fills a cell.", "", ":param row: the row", ":type row: index"]},
+    {"k": "cpp_member", "doc": 0, "types": ["str", "int", "bool"], "params": ["name_in", "count_in", "verbose"]},
     {"k": "cpp_constructor", "doc": 1, "types": ["int"], "params": ["x"]},
     {"k": "cpp_constructor", "doc": 0, "types": [], "params": [], "impl": "macro"},
 ]
@@ -27,7 +28,8 @@ ATTRS = [{"k": "cpp_attr", "doc": 0}, {"k": "cpp_attr", "doc": 1, "default": "df
          {"k": "cpp_attr", "doc": 1, "default": '"quoted v"'}, {"k": "cpp_attr", "doc": 0, "default": "${ref}"}]
 CLASSES = [{"k": "cpp_class", "doc": 0}, {"k": "cpp_class", "doc": 1, "bases": ["Base"]},
            {"k": "cpp_class", "doc": 1, "bases": ["B1", "ns::B2"]}]
-CONFIGS = [{}, {"member_parameter_name_strip_regex": "^_[a-z]*_"}]
+CONFIGS = [{}, {"member_parameter_name_strip_regex": "^_[a-z]*_"}, {"member_parameter_name_strip_regex": "_[^_]*$"},
+           {"member_parameter_name_strip_regex": r"\A_+|\W+"}]
 
 
 def enabled(events, maxnest):
